@@ -93,6 +93,7 @@ type CWorldCfg struct {
 	Handshake   func(ctx context.Context) error
 	Monitor     udpClient.InactivityMonitor
 	CloseSocket bool
+	PreStart    func(sc *SimConn) // stream transports: runs before the library gets the socket
 }
 
 func NewCWorld(e *Env, c CWorldCfg) *CWorld {
@@ -160,6 +161,9 @@ func NewCWorld(e *Env, c CWorldCfg) *CWorld {
 	case TrTCP, TrTLS:
 		a, _ := NewStream(e, TCPAddr("10.0.0.1", 40000), TCPAddr("10.0.0.2", 5683))
 		w.SC = a
+		if c.PreStart != nil {
+			c.PreStart(a)
+		}
 		ep, err := NewTCPEndpoint(e, a, TCPEndpointCfg{TLS: c.Transport == TrTLS, Handshake: c.Handshake, Opts: c.TCPOpts})
 		if err != nil {
 			e.Violate("HARNESS", "client-setup", "tcp.Client failed: %v", err)
